@@ -1,7 +1,7 @@
 (* C12 — noLengthEncodingExhaustBuffer arrays: termination of decode, and the two ways the
    code that exists violates the property (finding F9). *)
 From Coq Require Import List ZArith Bool Lia.
-From TskVerif Require Import Base.Common C12.Model C12.BytesProofs C12.Unfold C12.ValidProofs C12.ShapeProofs
+From TskVerif Require Import Base.Common Gen.Generated C12.Model C12.BytesProofs C12.Unfold C12.ValidProofs C12.ShapeProofs
   C12.RoundTripProofs.
 Import ListNotations.
 Open Scope Z_scope.
@@ -24,15 +24,21 @@ Definition zw_schema : schema :=
   SObj None [([122], {| p_index := 0; p_default := None |}, SArr AExhaust (SLeaf TNull None false))].
 Definition zw_top : top := modify_top {| t_nullable := false; t_schema := zw_schema |}.
 
-(* The statement "decode terminates" is false for the code that exists: there is a schema, and
+(* Historical record (finding F9a, fixed by fd16390).  For the constructor of the pinned commit
+   the statement "decode terminates" was false: there is a schema, and
    a valid object that encodes (to b""), such that decode_row runs out of every fuel on every
    buffer — in Python: `while True: ret.append(element_decoder(buffer))` never raises. *)
-Theorem exhaust_zero_width_diverges_refuted :
-  exists (t : top) (v : value),
+Theorem exhaust_zero_width_diverges_pinned_refuted :
+  exists (t0 : top) (v : value),
+    let t := modify_top t0 in
+    construct_pinned t0 = CAccept /\          (* the pinned MetadataSchema() took the schema *)
+    construct t0 = CSchemaErr /\              (* since fd16390 it is refused *)
     validate_and_encode round32_impl t v = EOk [] /\
     forall fuel buf, decode_top widen32_impl fuel t buf = DFuel.
 Proof.
-  exists zw_top, (VObj [([122], VArr [])]). split; [reflexivity|].
+  exists {| t_nullable := false; t_schema := zw_schema |}, (VObj [([122], VArr [])]).
+  split; [reflexivity|]. split; [reflexivity|]. split; [reflexivity|].
+  change (modify_top {| t_nullable := false; t_schema := zw_schema |}) with zw_top.
   intros fuel buf. unfold decode_top, zw_top, modify_top. cbn [t_nullable t_schema].
   change (modify zw_schema) with
     (SObj (Some [[122]]) [([122], {| p_index := 0; p_default := None |}, SArr AExhaust (SLeaf TNull None false))]).
@@ -74,12 +80,17 @@ Definition nontail_schema : schema :=
 Definition nontail_top : top := modify_top {| t_nullable := false; t_schema := nontail_schema |}.
 Definition nontail_value : value := VObj [([97], VArr [VInt 1; VInt 2]); ([122], VInt 7)].
 
-Theorem exhaust_nontail_refuted :
-  exists (t : top) (v : value) (bs : list Z),
+(* Historical record (finding F9b, fixed by 7f77db5) *)
+Theorem exhaust_nontail_pinned_refuted :
+  exists (t0 : top) (v : value) (bs : list Z),
+    let t := modify_top t0 in
+    construct_pinned t0 = CAccept /\ construct t0 = CSchemaErr /\
     validate_and_encode round32_impl t v = EOk bs /\
     forall fuel, decode_top widen32_impl fuel t bs <> DOk (norm_top round32_impl widen32_impl t v) [].
 Proof.
-  exists nontail_top, nontail_value, [1; 2; 7; 0; 0; 0]. split; [reflexivity|].
+  exists {| t_nullable := false; t_schema := nontail_schema |}, nontail_value, [1; 2; 7; 0; 0; 0].
+  split; [reflexivity|]. split; [reflexivity|]. split; [reflexivity|].
+  change (modify_top {| t_nullable := false; t_schema := nontail_schema |}) with nontail_top.
   intros fuel.
   do 8 (destruct fuel as [|fuel]; [vm_compute; discriminate|]).
   vm_compute. discriminate.
@@ -260,6 +271,78 @@ Proof.
     rewrite Forall_forall in *. intros p Hp. split.
     + intros b Hb. apply IH; auto. lia.
     + intros b v r E. apply decode_consumes in E. lia.
+Qed.
+
+(* ---- the repaired constructor only accepts schemas on which decode terminates ---- *)
+
+Lemma cthen_accept a b : cthen a b = CAccept -> a = CAccept /\ b = CAccept.
+Proof. destruct a; simpl; intros H; try discriminate; auto. Qed.
+
+Lemma fold_accept (F : schema -> cres) ps :
+  fold_right (fun (p : prop) acc => cthen (F (snd p)) acc) CAccept ps = CAccept ->
+  Forall (fun p : prop => F (snd p) = CAccept) ps.
+Proof.
+  induction ps as [|p r IH]; simpl; intros H; constructor.
+  - apply cthen_accept in H. tauto.
+  - apply IH. apply cthen_accept in H. tauto.
+Qed.
+
+Lemma mk_decode_obj req ps : mk_decode (SObj req ps) = CAccept ->
+  Forall (fun p : prop => mk_decode (snd p) = CAccept) ps.
+Proof.
+  cbn [mk_decode]. destruct (exhaust_before_last ps); [discriminate|]. apply fold_accept.
+Qed.
+
+Lemma mk_decode_arr m it : mk_decode (SArr m it) = CAccept ->
+  mk_decode it = CAccept /\ (m = AExhaust -> can_decode_empty it = false).
+Proof.
+  cbn [mk_decode]. destruct (has_exhaust it); [discriminate|]. intros H.
+  apply cthen_accept in H as [H1 H2]. split; auto. intros ->.
+  destruct (can_decode_empty it); [discriminate|reflexivity].
+Qed.
+
+(* an accepted schema that cannot be decoded from an empty buffer is at least one byte wide *)
+Lemma accepted_nonempty_width s :
+  mk_decode s = CAccept -> can_decode_empty s = false -> (0 < min_width s)%nat.
+Proof.
+  induction s as [t f nt | m it IH | req ps IH] using schema_ind'; intros Ha Hc.
+  - cbn [min_width leaf_min]. destruct t; destruct f as [f|]; cbn [can_decode_empty mk_decode] in *;
+      try discriminate; apply Z.leb_gt in Hc; unfold leaf_min; lia.
+  - apply mk_decode_arr in Ha as [Ha _]. cbn [can_decode_empty min_width] in *.
+    destruct m as [n| |f]; try discriminate.
+    + apply orb_false_iff in Hc as [Hn Hc]. apply Z.leb_gt in Hn. specialize (IH Ha Hc). nia.
+    + destruct f; simpl; lia.
+  - apply mk_decode_obj in Ha. cbn [can_decode_empty] in Hc. rewrite min_width_obj.
+    induction IH as [|p r Hp _ IHr]; [discriminate Hc|].
+    inversion Ha as [|? ? Hap Har]; subst. cbn [forallb] in Hc. cbn [fields_min]. fold (fields_min min_width).
+    destruct (can_decode_empty (snd p)) eqn:E.
+    + specialize (IHr Har Hc). lia.
+    + specialize (Hp Hap eq_refl). lia.
+Qed.
+
+Lemma accepted_zw_free s : mk_decode s = CAccept -> zw_free s = true.
+Proof.
+  induction s as [t f nt | m it IH | req ps IH] using schema_ind'; intros Ha; auto.
+  - apply mk_decode_arr in Ha as [Ha Hm]. specialize (IH Ha).
+    destruct m as [n| |f]; cbn [zw_free]; auto.
+    rewrite IH, andb_true_r. apply Nat.ltb_lt. apply accepted_nonempty_width; auto.
+  - apply mk_decode_obj in Ha. cbn [zw_free]. apply forallb_forall. intros p Hp.
+    rewrite Forall_forall in IH, Ha. auto.
+Qed.
+
+(* (c) for the repaired code: decode_row terminates under EVERY schema MetadataSchema() accepts —
+   no caveat about zero-width items is left (it is discharged by the constructor) *)
+Theorem accepted_decode_terminates t :
+  construct t = CAccept ->
+  forall fuel buf, (length buf < fuel)%nat -> decode_top widen32 fuel (modify_top t) buf <> DFuel.
+Proof.
+  unfold construct. intros Hc fuel buf Hl.
+  destruct (t_schema t) as [| |req ps] eqn:Es; try discriminate.
+  destruct (negb c12_pascal_zero_allowed && has_pas0 (SObj req ps)); [discriminate|].
+  destruct (top_rules req ps); [discriminate|].
+  apply cthen_accept in Hc as [_ Hd]. apply accepted_zw_free in Hd.
+  unfold decode_top, modify_top. cbn [t_nullable t_schema]. rewrite Es.
+  destruct (t_nullable t); [destruct buf; [discriminate|]|]; apply decode_terminates; auto.
 Qed.
 
 End Term.
